@@ -18,6 +18,7 @@
    Outside the theorems: symbolic links already present inside the destination. *)
 From Coq Require Import List String.
 From TF Require Import Model.PathSafe Proofs.PathSafeProofs.
+From TF Require Import Model.PathCheckTable Proofs.PathCheckTableProofs Gen.GenPathCheck Proofs.PathCheckInstance.
 Import ListNotations.
 Open Scope list_scope.
 
@@ -182,3 +183,26 @@ Theorem C19_rebuild_target_is_the_resolved_path : forall (dest : CopyPath.path) 
   prefix (resolve dest) (target dest e).
 Proof. exact target_is_resolved. Qed.
 Print Assumptions C19_rebuild_target_is_the_resolved_path.
+
+(* THE SOURCE'S OWN TEST.  Gen/GenPathCheck.v is regenerated from /repo/torrentfile/rebuild.py on every run: the strings and
+   characters for which Metadata._check_parts refuses an element, whether it insists on str, whether it is a plain function
+   looping over its whole argument, and whether every one of its calls is a statement on a bare name or a one-element list
+   (never a slice or a filtered copy of the elements).  The element test read from the source IS safe_comp, the predicate all
+   theorems above are about -- for every string, not for the sampled ones of the differential tie. *)
+Theorem C19_source_test_is_the_model :
+  gen_requires_str = true /\ gen_check_parts_plain_loop = true /\ gen_calls_validate_whole_argument = true /\
+  (1 <= gen_call_sites)%nat /\
+  forall c : string, gen_safe_comp c = safe_comp c.
+Proof. exact gen_check_parts_is_the_model. Qed.
+Print Assumptions C19_source_test_is_the_model.
+
+Theorem C19_source_test_on_lists : forall parts : list string,
+  forallb gen_safe_comp parts = check_parts_model parts.
+Proof. exact gen_check_parts_lists. Qed.
+Print Assumptions C19_source_test_on_lists.
+
+(* the certified checker behind it: ANY table that lists exactly "", ".", ".." and exactly "/" and NUL tests safe_comp *)
+Theorem C19_accepted_table_is_safe_comp : forall (exact : list string) (chars : list Ascii.ascii),
+  table_ok exact chars = true -> forall c : string, table_safe_comp exact chars c = safe_comp c.
+Proof. exact table_ok_is_safe_comp. Qed.
+Print Assumptions C19_accepted_table_is_safe_comp.
